@@ -95,6 +95,10 @@ class ModuleInfo:
         self.modname = modname
         self.source = source
         self.tree = ast.parse(source, filename=relpath)
+        # helpers outside the confirmed function inventory are inlined at
+        # their call sites when that is exact (sa/normalize.py)
+        from .normalize import normalise
+        self.normalised: List[str] = normalise(relpath, self.tree)
         set_parents(self.tree)
         for node in ast.walk(self.tree):
             node._module = self  # type: ignore[attr-defined]
